@@ -30,7 +30,8 @@ callee mzd_row_add_offset of translate_acc.py, which has one, is not used here).
 
 Translated: mzd_is_zero, mzd_equal, mzd_cmp, mzd_first_zero_row, mzd_find_pivot, mzd_row_clear_offset,
 mzd_copy_row and their callees mzd_row, mzd_row_const, mzd_read_bits (mzd.h), m4ri_lesser_LSB (misc.h).
-Specifications: coq/Leaf/ObsSpecs*.v, restated in coq/Properties/Properties_C17t.v.
+Specifications: coq/Leaf/CMiniObs.v (loop rule), coq/Leaf/ObsSpecs.v .. ObsSpecs13.v, restated in
+coq/Properties/Properties_C17t.v.
 
 Usage:  translate_obs.py [--stdout] [--out FILE]     (exit status 1 if a required function was refused)
         translate_obs.py --selftest [--specs Leaf/ObsSpecs.v,...] [--cases substring,...]
@@ -253,11 +254,12 @@ def regenerate_observers(path=None):
 # ------------------------------------------------------------------------------------------------
 SPEC_FILES = ["Leaf/ObsSpecs.v", "Leaf/ObsSpecs2.v", "Leaf/ObsSpecs3.v", "Leaf/ObsSpecs4.v", "Leaf/ObsSpecs5.v",
               "Leaf/ObsSpecs6.v", "Leaf/ObsSpecs7.v", "Leaf/ObsSpecs8.v", "Leaf/ObsSpecs9.v", "Leaf/ObsSpecs10.v",
-              "Properties/Properties_C17t.v"]
+              "Leaf/ObsSpecs11.v", "Leaf/ObsSpecs12.v", "Leaf/ObsSpecs13.v", "Properties/Properties_C17t.v"]
 
 O1, O2, O3, O4 = "Leaf/ObsSpecs.v", "Leaf/ObsSpecs2.v", "Leaf/ObsSpecs3.v", "Leaf/ObsSpecs4.v"
 O6, O7, O8, O9, O10 = ("Leaf/ObsSpecs6.v", "Leaf/ObsSpecs7.v", "Leaf/ObsSpecs8.v", "Leaf/ObsSpecs9.v",
                        "Leaf/ObsSpecs10.v")
+O11, O12, O13 = "Leaf/ObsSpecs11.v", "Leaf/ObsSpecs12.v", "Leaf/ObsSpecs13.v"
 
 SELFTEST_CASES = [
     # (name, file, old text, new text, expectation, spec files to compile (None = all))
@@ -276,7 +278,8 @@ SELFTEST_CASES = [
      "for (rci_t i = A->nrows; i >= 0; --i) {\n    word const *row = mzd_row_const(A, i);\n    word tmp = 0;",
      "proof", [O1, O2]),
     ("find_pivot: last-word scan bound off by one", "mzd.c",
-     "for (int l = 0; l < end_offset; ++l) {", "for (int l = 0; l < end_offset - 1; ++l) {", "proof", [O1, O6, O7, O8]),
+     "for (int l = 0; l < end_offset; ++l) {", "for (int l = 0; l < end_offset - 1; ++l) {", "proof",
+     [O1, O6, O7, O8, O11, O12, O13]),
     ("find_pivot: narrow path (< 64 columns left) reports column + 1", "mzd.c",
      "*c = j + l;", "*c = j + l + 1;", "proof", [O1, O6, O7]),
     ("row_clear_offset: last word keeps the wrong half", "mzd.c",
